@@ -4,6 +4,7 @@ import Holpy.C18.Gen
 import Holpy.C18.ProofsHyps
 import Holpy.C18.ProofsRes
 import Holpy.C18.ProofsProof
+import Holpy.C18.ProofsHelper
 /-
 C18 — property theorems.  `Interp` is an arbitrary first-order interpretation (Sem.lean); a
 sequent holds when its hypotheses imply its proposition.  Everything is about the model of the
@@ -19,9 +20,9 @@ soundness theorem below), `false` = tier 2 (simplification tables, quantifier / 
 rules, equality and arithmetic rules not modelled yet, internal helper macros: judged by the
 oracle of the harness only). -/
 def classified : List (String × Bool) := [
-  ("combine_disj_clauses", false),
-  ("imp_to_or", false),
-  ("swap_disj_to_front", false),
+  ("combine_disj_clauses", true),
+  ("imp_to_or", true),
+  ("swap_disj_to_front", true),
   ("verit_ac_simp", false),
   ("verit_and", true),
   ("verit_and_neg", true),
@@ -32,10 +33,10 @@ def classified : List (String × Bool) := [
   ("verit_bool_simplify", true),
   ("verit_comp_simplify", true),
   ("verit_cong", true),
-  ("verit_conj_pts", false),
+  ("verit_conj_pts", true),
   ("verit_connective_def", true),
   ("verit_contraction", true),
-  ("verit_disj_pts", false),
+  ("verit_disj_pts", true),
   ("verit_distinct_elim", false),
   ("verit_div_simplify", true),
   ("verit_eq_congruent", true),
@@ -162,6 +163,32 @@ example : laDisequality [mkOr (mkEq (.var 0) (.var 1)) (mkOr (mkNot (mkLe (.var 
     ∧ laDisequality [mkOr (mkEq (.var 0) (.var 1)) (mkOr (mkNot (mkLe (.var 0) (.var 1))) (mkNot (mkLe (.var 0) (.var 1))))]
       = .error .verit := ⟨rfl, rfl⟩
 
+/-- The propositional helper macros swap_disj_to_front, combine_disj_clauses, imp_to_or, verit_conj_pts,
+verit_disj_pts (their Python arguments encoded as in ModelHelper.lean): an accepted result holds wherever the
+premises hold; imp_to_or removes from the hypotheses only those its literals name, and the clause it returns
+holds under the remaining ones. -/
+theorem helper_macros_sound (I : Interp) (cl : List Tm) (sizes : List Nat) (ps : List Seq) (s : Seq)
+    (hp : ∀ p ∈ ps, p.holds I) :
+    (swapDisj cl sizes ps = .ok s → s.holds I) ∧ (combineDisj cl sizes ps = .ok s → s.holds I) ∧
+    (impToOr cl ps = .ok s → s.holds I) ∧ (conjPts ps = .ok s → s.holds I) ∧ (disjPts ps = .ok s → s.holds I) :=
+  ⟨fun h => swapDisj_sound I _ _ _ _ h hp, fun h => combineDisj_sound I _ _ _ _ h hp,
+   fun h => impToOr_sound I _ _ _ h hp, fun h => conjPts_sound I _ _ h hp, fun h => disjPts_sound I _ _ h hp⟩
+
+/-- non-vacuity: from `h, a ⊢ c` imp_to_or gives `h ⊢ ~a | c` (only `a` is discharged) and rejects the goal `~b | c`;
+swap moves the disjunct at index 1 to the front; conj_pts from `a <--> b`, `c <--> b` gives `a & c <--> b`, and (fixed)
+rejects a premise `e --> (a <--> b)` -/
+example : impToOr [mkNot (.var 0), mkOr (mkNot (.var 0)) (.var 2)] [⟨[.var 9, .var 0], .var 2⟩]
+      = .ok ⟨[.var 9], mkOr (mkNot (.var 0)) (.var 2)⟩
+    ∧ impToOr [mkNot (.var 0), mkOr (mkNot (.var 1)) (.var 2)] [⟨[.var 9, .var 0], .var 2⟩] = .error .assertion
+    ∧ swapDisj [.var 0, .var 1, .var 2] [1] [⟨[], mkOr (.var 0) (mkOr (.var 1) (.var 2))⟩]
+      = .ok ⟨[], mkOr (.var 1) (mkOr (.var 0) (.var 2))⟩
+    ∧ conjPts [⟨[], mkIff (.var 0) (.var 1)⟩, ⟨[.var 9], mkIff (.var 2) (.var 1)⟩]
+      = .ok ⟨[.var 9], mkIff (mkAnd (.var 0) (.var 2)) (.var 1)⟩
+    ∧ conjPts [⟨[], mkImp (.var 5) (mkIff (.var 0) (.var 1))⟩] = .error .verit
+    ∧ combineDisj [.var 0, .var 1, .var 1, .var 0] [1, 1] [⟨[], mkOr (.var 0) (.var 1)⟩] = .ok ⟨[], mkOr (.var 1) (.var 0)⟩
+    ∧ combineDisj [.var 0, .var 1, .var 1] [1, 1] [⟨[], mkOr (.var 0) (.var 1)⟩] = .error .assertion :=
+  ⟨rfl, rfl, rfl, rfl, rfl, rfl, rfl⟩
+
 /-- non-vacuity: `not_and` accepts `~(a & b) ⊢ ~a | ~b` (and the fixed rule rejects the goal `[~a]`) -/
 example : evalRule .notAnd [mkNot (.var 0), mkNot (.var 1)] [] [⟨[.var 9], mkNot (mkAnd (.var 0) (.var 1))⟩]
       = .ok ⟨[.var 9], mkOr (mkNot (.var 0)) (mkNot (.var 1))⟩
@@ -225,12 +252,13 @@ example : thResolution [] [2, 1, 1] [⟨[.var 7], mkOr (.var 0) (.var 1)⟩, ⟨
 
 /-- PARTIAL.  A proof that evaluation mode accepts and that ends in the empty clause (`false`) shows
 that the assumed formulas are jointly unsatisfiable — proved for proofs made of `assume` commands
-and steps of the rules in `Rule` (the propositional clause rules, resolution, eq_reflexive,
-la_disequality, la_rw_eq) whose steps are `wellKinded` (true of well-typed steps; `runProof` tests
+and steps of the rules in `Rule` (the propositional clause rules, resolution, the equality and
+simplification rules of the term model, subproof, cong, and the helper macros swap_disj_to_front,
+combine_disj_clauses, imp_to_or, conj_pts, disj_pts) whose steps are `wellKinded` (true of well-typed steps; `runProof` tests
 it, the Python does not — `runProof_agrees_raw` relates it to the untested run that the driver
 compares with `proof_rec.validate`).  Missing: steps of la_generic (its theorem `la_generic_sound`
-is about the parsed arithmetic, not the term model), of the equality-chain / congruence rules and
-of every tier-2 rule; subproofs / anchors / contexts. -/
+is about the parsed arithmetic, not the term model), of the arithmetic simplifications and
+of every tier-2 rule; anchors / contexts. -/
 theorem empty_clause_unsat_partial (I : Interp) (hI : I.LeOrder) (cmds : List Cmd) (res : List Seq) (s : Seq)
     (h : runProof cmds [] = .ok res) (hlast : res.getLast? = some s) (hs : s.prop = ff) :
     ¬ ∀ t ∈ assumptions cmds, tr I t := by
